@@ -236,6 +236,6 @@ man = dict(version=1,
                 kind_free_text='Coq 8.16.1 theorems about a Gallina model; model regenerated from /repo by a fail-closed Python-ast translator (Gen/*.v) '
                                'and tied by differential evaluation inside Coq (vm_compute) against the real starsim objects')],
   checks=checks, not_applicable=na,
-  notes='All checks: ./check <ID> --tier quick|thorough. Known findings: /verif/known_findings.json (entries with `demo` carry a witness program under /verif/hunted/ that every run of the property's check executes). Seeded mutations: /verif/seeded/ (tools/regress_parallel.sh). Behaviour-preserving refactorings: /verif/refactors/ (tools/try_refactors.sh).')
+  notes='All checks: ./check <ID> --tier quick|thorough. Known findings: /verif/known_findings.json (entries with `demo` carry a witness program under /verif/hunted/ that every run of that property check executes). Seeded mutations: /verif/seeded/ (tools/regress_parallel.sh). Behaviour-preserving refactorings: /verif/refactors/ (tools/try_refactors.sh).')
 json.dump(man, open(os.path.join(HERE, 'MANIFEST.json'), 'w'), indent=1)
 print('claimed', sorted(CLAIMED), 'not_applicable', len(na))
